@@ -14,24 +14,29 @@ package satisfaction
 
 //@ func (*SatisfactionParameters).with
 //@   property C07 C01 C09 C13 C15 C18 C19 C20
+//@   indexsafe
 //@   nopanic
 //@   ensures [replaced] result.Params == params && result.Function == s.Function && result.RandomSeed == s.RandomSeed
 //@             && result.CurrentChoice == s.CurrentChoice && result.RandomAlternativesOrdering == s.RandomAlternativesOrdering
 
 //@ func (*SatisfactionBiasListener).OnCriteriaRemoved
 //@   property C07 C15 C01 C09 C20
+//@   indexsafe
 //@   refines model.BiasListener.OnCriteriaRemoved with validParams=saValid, coversId=saCovers
 //@ func (*SatisfactionBiasListener).OnCriterionAdded
 //@   property C07 C18 C01 C09 C19 C20
+//@   indexsafe
 //@   refines model.BiasListener.OnCriterionAdded with validParams=saValid, coversId=saCovers, accepts=saAccepts, acceptsAny=saAcceptsAny
 //@ func (*SatisfactionBiasListener).Merge
 //@   property C07 C18 C01 C09 C19 C20
+//@   indexsafe
 //@   refines model.BiasListener.Merge with validParams=saValid, coversId=saCovers, accepts=saAccepts, acceptsAny=saAcceptsAny
 
 // ---- the heuristic's building blocks (C13)
 
 //@ func isGoodEnough
 //@   property C13 C01 C09 C14 C20
+//@   indexsafe
 //@   ensures [meets_every_threshold] result <==> forall k int :: 0 <= k && k < len(*thresholds) ==> model.signed(alternative, (*thresholds)[k].Criterion) >= model.mult((*thresholds)[k].Criterion) * (*thresholds)[k].Weight
 //@   loop 1 invariant [so_far] forall k int :: 0 <= k && k < iter ==> model.signed(alternative, (*thresholds)[k].Criterion) >= model.mult((*thresholds)[k].Criterion) * (*thresholds)[k].Weight
 
@@ -41,6 +46,7 @@ package satisfaction
 
 //@ func updateResult
 //@   property C13 C01 C09 C14 C20
+//@   indexsafe
 //@   requires 0 <= resultInsertIndex && resultInsertIndex < len(result) && resultInsertIndex < len(resultIds)
 //@   assigns result, resultIds
 //@   ensures [slot_written] acceptedAt(result[resultInsertIndex], alternative, alternativeValue, *thresholds) && resultIds[resultInsertIndex] == alternative.Id
@@ -51,6 +57,7 @@ package satisfaction
 // the fallback thresholds: the worst end of every criterion's range (declared range first, else observed over all known alternatives)
 //@ func weightsSupplier$1
 //@   property C13 C01 C09 C14 C20
+//@   indexsafe
 //@   ensures [worst_of_declared_range] fresh(result) && forall k int :: 0 <= k && k < len(dmp.Criteria) && dmp.Criteria[k].ValuesRange != nil
 //@             && (forall j int :: k < j && j < len(dmp.Criteria) ==> dmp.Criteria[j].Id != dmp.Criteria[k].Id) ==>
 //@             dmp.Criteria[k].Id in result && result[dmp.Criteria[k].Id] == (dmp.Criteria[k].Type == model.Cost ? dmp.Criteria[k].ValuesRange.Max : dmp.Criteria[k].ValuesRange.Min)
@@ -74,6 +81,7 @@ package satisfaction
 
 //@ func checkWithinSatisfactionLevels
 //@   property C13 C01 C09 C14 C20
+//@   indexsafe
 //@   requires [distinct_search_order] distinctIds(considered) && forall j int :: 0 <= j && j < len(considered) ==> considered[j].Id != current.Id
 //@   ensures [every_alternative_once] fresh(result1) && fresh(result2) && len(result1) == 1 + len(considered) && len(result2) == 1 + len(considered)
 //@             && 0 <= result3 && result3 + len(result0) == 1 + len(considered) && distinctIds(result0)
@@ -121,6 +129,7 @@ package satisfaction
 // the fallback thresholds
 //@ func fillRemainingAlternatives
 //@   property C13 C01 C09 C14 C20
+//@   indexsafe
 //@   fnparam lowestThresholdSup pure
 //@   requires [fills_exactly_the_open_slots] 0 <= resultInsertIndex && resultInsertIndex + len(leftToChoice) == len(result) && len(resultIds) == len(result)
 //@   assigns result, resultIds
@@ -140,6 +149,7 @@ package satisfaction
 // ---- the method as a whole (C13, C01, C14): what is decoded is what is used, every examined alternative appears once
 //@ func (*Satisfaction).ParseParams
 //@   property C13 C14 C20 C01 C09
+//@   indexsafe
 //@   ensures [decoded_parameters] typeis(result, SatisfactionParameters)
 //@             && result.(SatisfactionParameters).Function == (decoded_has(dm.MethodParameters, "Function") ? decoded_str(dm.MethodParameters, "Function") : "")
 //@             && result.(SatisfactionParameters).CurrentChoice == (decoded_has(dm.MethodParameters, "CurrentChoice") ? decoded_str(dm.MethodParameters, "CurrentChoice") : "")
@@ -150,21 +160,25 @@ package satisfaction
 //@ spec saRandom(p limited_rationality.HeuristicParams) bool = p.(*SatisfactionParameters).RandomAlternativesOrdering
 //@ func (*SatisfactionParameters).GetCurrentChoice
 //@   property C13 C01 C09 C11 C12 C14 C20
+//@   indexsafe
 //@   nopanic
 //@   refines limited_rationality.HeuristicParams.GetCurrentChoice with currentChoiceOf=saCurrent
 //@   ensures result == s.CurrentChoice
 //@ func (*SatisfactionParameters).IsRandomAlternativesOrdering
 //@   property C13 C01 C09 C11 C12 C14 C20
+//@   indexsafe
 //@   nopanic
 //@   refines limited_rationality.HeuristicParams.IsRandomAlternativesOrdering with randomOrderOf=saRandom
 //@   ensures result == s.RandomAlternativesOrdering
 //@ func (*SatisfactionParameters).GetRandomSeed
 //@   property C13 C01 C14 C09 C20
+//@   indexsafe
 //@   nopanic
 //@   ensures result == s.RandomSeed
 
 //@ func (*Satisfaction).Evaluate
 //@   property C13 C14 C01 C09 C20
+//@   indexsafe
 //@   fnparam .generator pure
 //@   requires [parameters] typeis(dmp.MethodParameters, SatisfactionParameters)
 //@   requires [distinct_alternatives] model.distinctAltIds(dmp.ConsideredAlternatives)
@@ -184,12 +198,14 @@ package satisfaction
 // the registered object holds exactly the collaborators it was built with, each in its own role
 //@ func NewSatisfactionBiasListener
 //@   property C13 C07 C09
+//@   indexsafe
 //@   nopanic
 //@   ensures [wired_as_given] result != nil && fresh(result) && result.satisfactionLevelsUpdateListeners == satisfactionLevelsUpdateListeners
 
 // the registered object holds exactly the collaborators it was built with, each in its own role
 //@ func NewSatisfaction
 //@   property C13 C09 C01
+//@   indexsafe
 //@   nopanic
 //@   ensures [wired_as_given] result != nil && fresh(result) && result.functions == functions && result.generator == generator
 
@@ -211,12 +227,14 @@ package satisfaction
 // ---- registered names (what a request must say to select this object; what error messages list)
 //@ func (*SatisfactionBiasListener).Identifier
 //@   property C07 C20 C01 C03 C04 C05 C06 C08 C09 C11 C12 C13 C14 C15 C16 C17 C18 C19
+//@   indexsafe
 //@   nopanic
 //@   ensures [name] result == "satisfactionHeuristic"
 
 // ---- registered names (what a request must say to select this object; what error messages list)
 //@ func (*Satisfaction).Identifier
 //@   property C01 C09 C13 C20 C03 C04 C05 C06 C07 C08 C11 C12 C14 C15 C16 C17 C18 C19
+//@   indexsafe
 //@   nopanic
 //@   ensures [name] result == "satisfactionHeuristic"
 
@@ -224,6 +242,7 @@ package satisfaction
 //@ spec saImportance(l model.BiasListener, p *model.DecisionMakingParams, id string) real = model.cumw(p.ConsideredAlternatives, id, len(p.ConsideredAlternatives), model.WeightIdentity)
 //@ func (*SatisfactionBiasListener).RankCriteriaAscending
 //@   property C15 C07 C16 C18 C19 C01 C09 C20
+//@   indexsafe
 //@   refines model.BiasListener.RankCriteriaAscending with validParams=saValid, coversId=saCovers, imp=saImportance
 //@   requires [distinct] model.distinctCriteria(params.Criteria)
 //@   ensures [every_criterion_once_ascending] result != nil && fresh(result) && fresh(*result) && len(*result) == len(params.Criteria)
@@ -234,10 +253,12 @@ package satisfaction
 
 //@ func (*SatisfactionBiasListener).getMethodParams
 //@   property C07 C13 C15 C18 C01 C09 C19 C20
+//@   indexsafe
 //@   ensures [listener_of_the_requests_level_source] pParams.Function in a.satisfactionLevelsUpdateListeners.Listeners && result0 == a.satisfactionLevelsUpdateListeners.Listeners[pParams.Function]
 
 // the parameter schema listed for this method is that of its parameter struct
 //@ func (*Satisfaction).MethodParameters
 //@   property C20 C01 C09 C13
+//@   indexsafe
 //@   nopanic
 //@   ensures [schema_of_the_methods_parameters] typeis(result, SatisfactionParameters)
